@@ -204,6 +204,7 @@ def ob_queries(ctx):
     W.install()
     QM = 'basset::hub::QueryMsg'
     n = 0
+    raw_scenario(W, 'query', W.mk.variant(QM, 'UnbondRequests', crate=HUB, address=user), user, querier=hub_querier_template(W))
     for st, res in W.query(W.st, W.mk.variant(QM, 'UnbondRequests', crate=HUB, address=user)):
         ctx.ob.paths += 1
         if not is_ok(res):
@@ -222,6 +223,7 @@ def ob_queries(ctx):
         ctx.require(st, z3.And(*conds) if ok2 else False, 'UnbondRequests reports every stored claim of the address with both amounts', 'query:requests', W.mv)
     ctx.need_witness('UnbondRequests Ok', n > 0)
     n = 0
+    raw_scenario(W, 'query', W.mk.variant(QM, 'AllHistory', crate=HUB, start_from=NONE, limit=NONE), user, querier=hub_querier_template(W))
     for st, res in W.query(W.st, W.mk.variant(QM, 'AllHistory', crate=HUB, start_from=NONE, limit=NONE)):
         ctx.ob.paths += 1
         if not is_ok(res):
@@ -231,7 +233,7 @@ def ob_queries(ctx):
         r = r.v if isinstance(r, JsonV) else r
         items = r.fields[0].items
         if len(items) != 1:
-            ctx.violation('AllHistory does not report the stored batch', 'query:history_count', {})
+            ctx.infeasible(st, 'AllHistory reports the stored batch', 'query:history_count', W.mv)
             continue
         x = items[0]
         f = lambda i: (x.fields[i].fields[0] if isinstance(x.fields[i], Agg) else x.fields[i])   # noqa
@@ -256,6 +258,18 @@ def ORACLE(v, scn, out):
         return []
     pre, post = decode_hub(scn['storage']), decode_hub(out.get('storage', []))
     bad = []
+    if key.startswith('query:'):
+        r = res['ok']
+        if key.startswith('query:requests'):
+            who = scn['msg']['unbond_requests']['address']
+            want = sorted((b_, int(w_['bsei_amount']), int(w_['stsei_amount'])) for (a_, b_), w_ in pre['wait'].items() if a_ == who)
+            got = sorted((int(x[0]), int(x[1]), int(x[2])) for x in r['requests'])
+            return [] if got == want else ['UnbondRequests reports %r, stored %r' % (got, want)]
+        want = [pre['hist'][i] for i in sorted(pre['hist'])][:10]
+        got = r['history']
+        norm = lambda h_: {k_: (str(v_) if not isinstance(v_, bool) else v_) for k_, v_ in h_.items()}   # noqa
+        same = len(got) == len(want) and all(all(norm(g_).get(k_) == v_ for k_, v_ in norm(w_).items()) for g_, w_ in zip(got, want))
+        return [] if same else ['AllHistory reports %r, stored %r' % (got, want)]
     if key.startswith('unbond_'):
         tok, what = key.split(':')[0][-1], key.split(':')[1]
         import base64, json as js
@@ -289,8 +303,19 @@ def ORACLE(v, scn, out):
             hh = post['hist'][bid]
             if int(hh['bsei_amount']) != int(cb0['requested_bsei_with_fee']) + rec_b or int(hh['stsei_amount']) != int(cb0['requested_stsei']) + rec_s:
                 bad.append('history total != sum of claims')
-        if what in ('history_id', 'next_batch', 'unreleased', 'nomint', 'recorded', 'delete'):
-            return None
+        if what == 'nomint' and any('mint' in (sm['msg'].get('wasm', {}).get('execute', {}).get('msg') or {}) for sm in res['ok']['messages']):
+            bad.append('an unbond mints tokens')
+        if what == 'recorded' and (sender, bid) not in post['wait']:
+            bad.append('no claim recorded for the sender in the open batch')
+        if what == 'delete' and any(k not in post['wait'] for k in pre['wait']):
+            bad.append('a claim was deleted by an unbond')
+        new_h = [i for i in post['hist'] if i not in pre['hist']]
+        if what == 'history_id' and new_h and (new_h != [bid] or int(post['hist'][bid]['batch_id']) != bid):
+            bad.append('history entry stored under %r for open batch %d' % (new_h, bid))
+        if what == 'next_batch' and new_h and not (int(cb1['id']) == bid + 1 and int(cb1['requested_bsei_with_fee']) == 0 and int(cb1['requested_stsei']) == 0):
+            bad.append('next batch %r does not open empty after batch %d' % (cb1, bid))
+        if what == 'unreleased' and new_h and post['hist'][new_h[0]]['released']:
+            bad.append('fresh history entry already released')
         return bad
     if key.startswith('withdraw:'):
         who = scn['info']['sender']
